@@ -19,6 +19,7 @@
  *   M s orc oa ob       -> ret hex(eav_errstr)             (default settings: eav_init; eav_setup; eav_is_email)
  *   J m mask tld rc     -> ret errcode                       (eav_is_email over a stub callback returning rc)
  *   A op op ...         -> one token per op                  (façade history, see run_history; op n = eav_is_email (e, NULL, 0))
+ *   Z c secs            -> tried longest-length-completed [label=got/want ...]   (time-boxed sweep of is_tld over all labels starting with c)
  *   W s                 -> cp,cp,...,E|X at_byte at_character  (utf8_decode_init/next over s: every scalar value delivered, then E(nd) or X (error))
  */
 #ifndef _GNU_SOURCE
@@ -32,6 +33,11 @@
 #include <unistd.h>
 #include <idn2.h>
 #include <eav.h>
+#include <eav/auto_tld.h>
+#include <time.h>
+#ifndef inverse
+#define inverse(x) (-(x))
+#endif
 #if defined __has_include
 # if __has_include(<src/utf8_decode.h>)
 #  include <src/utf8_decode.h>
@@ -296,6 +302,9 @@ static void run_history (char **tok, int ntok)
     __real_free (e);
 }
 
+static const tld_t **z_rows; static size_t z_n;
+static int z_cmp (const void *a, const void *b) { return strcmp ((*(const tld_t *const *) a)->domain, (*(const tld_t *const *) b)->domain); }
+
 /* a crash inside the library: report it as the result of the current case and stop;
    the harness restarts the driver on the remaining cases */
 #include <setjmp.h>
@@ -396,6 +405,50 @@ int main (void)
             else if (k == '6') printf ("%d\n", is_ipv6 (s, e));
             else printf ("%d\n", is_ipaddr (s, e));
             if (placed) unplace (placed);
+        }
+        else if (k == 'Z') {
+            /* Z c secs : every label over [a-z0-9-] that starts with the character c, shortest first, through is_tld for about
+               `secs` seconds; expected = the class of the row of tld_list[] with exactly that name, "invalid TLD" otherwise
+               (tld_list[] itself is regenerated into the model on every run).  Output: labels tried, longest length completed,
+               first labels judged otherwise. */
+            static const char alpha[] = "abcdefghijklmnopqrstuvwxyz0123456789-";
+            int secs = nf > 2 ? atoi (f[2]) : 2;
+            alarm (secs + case_timeout);
+            struct timespec t0, t1; clock_gettime (CLOCK_MONOTONIC, &t0);
+            if (!z_rows) {
+                for (const tld_t *t = tld_list; t->domain != NULL; t++) z_n++;
+                z_rows = __real_malloc ((z_n + 1) * sizeof *z_rows);
+                for (size_t i = 0; i < z_n; i++) z_rows[i] = &tld_list[i];
+                qsort (z_rows, z_n, sizeof *z_rows, z_cmp);
+            }
+            char lab[16]; int idx[16]; long tried = 0; int done_len = 0, nbad = 0, stop = 0;
+            char bad[3][40];
+            for (int L = 1; L <= 10 && !stop; L++) {
+                for (int i = 1; i < L; i++) idx[i] = 0;
+                for (;;) {
+                    lab[0] = f[1][0];
+                    for (int i = 1; i < L; i++) lab[i] = alpha[idx[i]];
+                    lab[L] = 0;
+                    int want = inverse (EEAV_TLD_INVALID);
+                    { size_t lo = 0, hi = z_n;          /* own sorted copy of the table's names */
+                      while (lo < hi) { size_t mid = (lo + hi) / 2; int c = strcmp (z_rows[mid]->domain, lab);
+                                        if (c == 0) { want = z_rows[mid]->type; break; } if (c < 0) lo = mid + 1; else hi = mid; } }
+                    int got = is_tld (lab, lab + L);
+                    tried++;
+                    if (got != want && nbad < 3) { snprintf (bad[nbad], sizeof bad[nbad], "%s=%d/%d", lab, got, want); nbad++; }
+                    if ((tried & 1023) == 0) {
+                        clock_gettime (CLOCK_MONOTONIC, &t1);
+                        if (t1.tv_sec - t0.tv_sec >= secs) { stop = 1; break; }
+                    }
+                    int i = L - 1;
+                    while (i >= 1 && ++idx[i] == (int) sizeof alpha - 1) { idx[i] = 0; i--; }
+                    if (i < 1) break;
+                }
+                if (!stop) done_len = L;
+            }
+            printf ("%ld %d", tried, done_len);
+            for (int i = 0; i < nbad; i++) printf (" %s", bad[i]);
+            putchar ('\n');
         }
         else if (k == 'W') {
 #ifdef HAVE_DECODER_H
